@@ -83,6 +83,12 @@ def deep_digest(obj, depth=0, seen=None):
 
 def result_fp(b, prog):
     d = pairdrv.digests(b, prog)
+    # what the algos were shown, in the order they were shown it: the universe of every
+    # strategy node (column order) and the order of the transaction report
+    try:
+        d["universe_columns"] = {m.full_name: [str(c) for c in m.universe.columns] for m in b.strategy.members if isinstance(m, bt.core.StrategyBase)}
+    except Exception as e:  # noqa: BLE001
+        d["universe_columns"] = "raised " + type(e).__name__
     return hashlib.sha256(json.dumps(d, sort_keys=True).encode()).hexdigest()
 
 
@@ -245,7 +251,7 @@ def run(prop, tier, replay=None):
         jobs = [(p["seed"], p["i"], [tuple(x) for x in p["schedule"]])]
     res = common.pool_map(_job, jobs, chunksize=2)
     # other hash seed: a few sessions in fresh interpreters
-    nhs = 4 if tier == "quick" else 40
+    nhs = 16 if tier == "quick" else 120
     others = {}
     import concurrent.futures as cf
 
